@@ -10,13 +10,14 @@ Lemma seteq_refl {X} (S : list X) : seteq S S. Proof. intro; tauto. Qed.
 Lemma seteq_sym {X} (S S' : list X) : seteq S S' -> seteq S' S. Proof. intros H x; symmetry; apply H. Qed.
 Lemma seteq_trans {X} (S S' S'' : list X) : seteq S S' -> seteq S' S'' -> seteq S S''.
 Proof. intros H1 H2 x; rewrite (H1 x); apply H2. Qed.
-Lemma canon_seteq S : seteq (canon S) S. Proof. intro x; apply canon_In. Qed.
+Lemma norm_seteq {X} `{Canon X} (S : list X) : seteq (norm S) S. Proof. intro x; apply norm_In. Qed.
 
 Lemma reach_mono {X} (succ : X -> list X) S S' x : incl S S' -> reach succ S x -> reach succ S' x.
 Proof. intros I R. induction R; [apply reach_init; auto|eapply reach_step; eauto]. Qed.
 
 Section A.
-  Variable A : enfa.
+  Context {Q : Type} `{EqDec Q}.
+  Variable A : enfa Q.
 
   Lemma eclose_seteq S S' : seteq S S' -> seteq (eclose A S) (eclose A S').
   Proof.
